@@ -216,3 +216,36 @@ fn d6_zip_extra_field_past_eof() {
     f.extend_from_slice(&[1, 2, 3]);
     roundtrip_container(&f);
 }
+
+fn stored_deflate(data: &[u8]) -> Vec<u8> {
+    assert!(data.len() < 65536);
+    let mut v = vec![0x01u8];
+    v.extend_from_slice(&(data.len() as u16).to_le_bytes());
+    v.extend_from_slice(&(!(data.len() as u16)).to_le_bytes());
+    v.extend_from_slice(data);
+    v
+}
+
+/// D9 (found by C01/A5, LIN): an IDAT chunk that starts fewer than 4 bytes after the end of an accepted stream.
+/// The scanner looks back 4 bytes for the chunk length (real_start = index - 4) without checking that this does
+/// not reach back into the stream it has just emitted, and `real_start - prev_index` underflows.
+#[test]
+fn d9_idat_length_overlapping_previous_stream() {
+    // zlib stream: one stored block whose last four data bytes are the big-endian length of the IDAT chunk that follows
+    let mut data: Vec<u8> = (0..1100u32).map(|i| (i * 7 + 3) as u8).collect();
+    let idat_payload_len: u32 = 1280;
+    let n = data.len();
+    data[n - 4..].copy_from_slice(&idat_payload_len.to_be_bytes());
+    let mut f = vec![0x78u8, 0x01];
+    f.extend(stored_deflate(&data));
+    // IDAT payload: zlib header + stored block + 4 bytes standing in for the adler32
+    let inner: Vec<u8> = (0..(idat_payload_len as usize - 2 - 5 - 4) as u32).map(|i| (i * 13 + 1) as u8).collect();
+    let mut payload = vec![0x78u8, 0x01];
+    payload.extend(stored_deflate(&inner));
+    payload.extend_from_slice(&[1, 2, 3, 4]);
+    assert_eq!(payload.len(), idat_payload_len as usize);
+    let chunk = png_chunk(b"IDAT", &payload);
+    f.extend_from_slice(&chunk[4..]); // the length field is supplied by the tail of the first stream
+    f.extend_from_slice(&[0u8; 16]);
+    roundtrip_container(&f);
+}
